@@ -236,89 +236,70 @@ def _append_indicator(prop, res, repo):
 
 
 def _append_hexital(prop, res, repo):
-    """Hexital.append: every manager is handed all of the given candles, unconditionally, and then every indicator resumes through
-    calculate() (the resume scan finds what is missing; nothing else does)"""
+    """Hexital.append, evaluated (convsem) on a strategy with two managers and two indicators for each input form (a list of three
+    candles, one candle, a dict row): every manager is handed all of the given candles exactly once, then every indicator resumes
+    through calculate() exactly once -- and through nothing else (only calculate() resumes from the first candle without a reading)"""
+    from . import convsem as cs
+
     rule = "R-ORDER"
     hp = repo.method("hexital.core.hexital", "Hexital", "append")
-    fn = hp.node
-    param = next((p for p in hp.params if p != "self"), "candles")
-    loops = [n for n in fn.body if isinstance(n, ast.For) and ast.unparse(n.iter) in ("self._candles.values()", "self._candles.items()")]
-    if not loops:
-        res.fail(rule, finding(prop, rule, hp, fn, "Hexital.append must append to every candle manager unconditionally and then calculate", construct="Hexital.append fan-out"))
-        return
-    loop = loops[0]
-    lv = ast.unparse(loop.target).split(",")[-1].strip(" ()")
-    feeds = [c for c in calls_in(loop) if call_target(c) == f"{lv}.append"]
-    conditional = any(isinstance(n, (ast.If, ast.Continue, ast.Break, ast.IfExp)) for n in ast.walk(loop))
-    after = fn.body[fn.body.index(loop) + 1 :]
-    before = fn.body[: fn.body.index(loop)]
-    good = len(feeds) == 1 and not conditional and len(feeds[0].args) + len(feeds[0].keywords) == 1
-    if not good:
-        res.fail(rule, finding(prop, rule, hp, fn, "Hexital.append must append to every candle manager unconditionally and then calculate", construct="Hexital.append fan-out"))
-        return
-    # ---- what is handed to the managers: the parameter, or a re-encoding of all of it
-    arg = feeds[0].args[0] if feeds[0].args else feeds[0].keywords[0].value
-    defs = {}
-    for st in before:
-        for n in ast.walk(st):
-            if isinstance(n, ast.Assign):
-                for t in n.targets:
-                    if isinstance(t, ast.Name):
-                        defs.setdefault(t.id, []).append(n.value)
-    seen, todo, exprs = set(), [arg], []
-    while todo:
-        e = todo.pop()
-        exprs.append(e)
-        for n in ast.walk(e):
-            if isinstance(n, ast.Name) and n.id != param and n.id in defs and n.id not in seen:
-                seen.add(n.id)
-                todo.extend(defs[n.id])
-    CONVERT = {"from_dict", "from_dicts", "from_list", "from_lists", "list", "tuple", "isinstance", "Candle", "len", "type"}
-    witness, unknown = None, None
-    for e in exprs:
-        for n in ast.walk(e):
-            if isinstance(n, (ast.ListComp, ast.GeneratorExp, ast.SetComp)) and any(g.ifs for g in n.generators):
-                witness = witness or (n, "a filtering comprehension")
-            elif isinstance(n, ast.Call) and call_name(n) in ("filter", "takewhile", "dropwhile", "islice"):
-                witness = witness or (n, f"{call_name(n)}(...)")
-            elif isinstance(n, ast.Subscript) and isinstance(n.slice, ast.Slice):
-                witness = witness or (n, "a slice")
-            elif isinstance(n, ast.Call) and call_name(n) not in CONVERT:
-                unknown = unknown or n
-    if witness is not None:
-        res.fail(rule, finding(prop, rule, hp, witness[0], f"Hexital.append hands the managers only part of the given candles ({witness[1]}): what is dropped depends on the state of one manager (e.g. the default manager's collapsed labels), so members no longer see the stream a standalone indicator sees"))
-    elif unknown is not None:
-        res.errors.append(f"{hp.where}: what Hexital.append hands to the managers goes through `{norm_construct(unknown)[:70]}`: cannot decide that every given candle reaches every manager")
-    else:
-        res.ok(rule, {"site": hp.where, "feeds": f"every manager.append({ast.unparse(arg)[:40]}): the given candles, complete"}, nontrivial="Hexital.append:feed")
-    # ---- early exits before the fan-out: only for an empty input
-    for st in before:
-        for n in ast.walk(st):
-            if isinstance(n, ast.If) and any(isinstance(x, ast.Return) for x in ast.walk(n)):
-                t = n.test
-                while isinstance(t, ast.UnaryOp) and isinstance(t.op, ast.Not):
-                    t = t.operand
-                names = {x.id for x in ast.walk(t) if isinstance(x, ast.Name)}
-                if not (names and names <= (seen | {param, "len"}) and not any(isinstance(x, ast.Attribute) for x in ast.walk(t))):
-                    res.errors.append(f"{hp.where}: Hexital.append returns early under `{ast.unparse(n.test)[:60]}`: cannot decide that nothing is left unappended")
-    # ---- afterwards: every indicator resumes through calculate()
-    ok_paths, n_paths = True, 0
-    for p in stmt_paths(after):
-        if not normal_exit(p):
+    n_ok = 0
+    for label, mk in (("a list of three candles", lambda: [cs.ObjV(f"candle {i}", {}, "Candle") for i in range(3)]), ("one candle", lambda: cs.ObjV("candle", {}, "Candle")), ("a dict row", lambda: {"open": cs.Sym("o", "float"), "close": cs.Sym("c", "float")}), ("a list of two dict rows", lambda: [{"open": cs.Sym("o1", "float")}, {"open": cs.Sym("o2", "float")}])):
+        it = cs.Interp(repo, "hexital.core.hexital", "Hexital")
+        try:
+            default = it.module_const("DEFAULT_CANDLES")
+        except cs.Undecided:
+            default = cs._MISSING
+        if default is cs._MISSING:
+            res.errors.append(f"{hp.where} {rule}: DEFAULT_CANDLES cannot be resolved")
+            return
+        events = []
+        arg = mk()
+        elems = list(arg) if isinstance(arg, list) else [arg]
+        mgrs = {}
+        for key in (default, "T5"):
+            o = cs.ObjV(f"manager {key}", {"candles": []}, "CandleManager")
+            o.attrs["append"] = (lambda a, k, kk=key: events.append(("append", kk, list(a[0]) if a and isinstance(a[0], (list, tuple)) else [a[0]] if a else [k.get("candles")])))
+            mgrs[key] = o
+        inds = {}
+        for n_ in ("A", "B"):
+            o = cs.ObjV(f"indicator {n_}", {"name": n_}, "Indicator")
+            for meth in ("calculate", "calculate_index", "recalculate", "purge", "_calculate_reading", "_set_reading"):
+                o.attrs[meth] = (lambda a, k, nn=n_, mm=meth: events.append((mm, nn)))
+            inds[n_] = o
+        selfo = cs.ObjV("self", {"_candles": mgrs, "_indicators": inds}, "Hexital")
+        try:
+            it.call_function(it.method("append"), [arg], {}, bound_first=selfo)
+        except cs.Undecided as ex:
+            res.errors.append(f"{hp.where} {rule} Hexital.append: cannot evaluate the fan-out for {label} ({ex}); the rule cannot decide it")
             continue
-        n_paths += 1
-        calls = path_calls(p)
-        names = [call_target(c) for c in calls]
-        other = [c for c in calls if call_name(c) in ("calculate_index", "recalculate", "purge", "_calculate_reading", "_set_reading")]
-        calc = [c for c in calls if call_target(c) == "self.calculate" and not c.args and not c.keywords]
-        if other:
-            ok_paths = False
-            res.fail(rule, finding(prop, rule, hp, other[0], f"after an append Hexital.append drives an indicator with {call_name(other[0])}() instead of calculate(): only calculate() resumes from the first candle without a reading, so candles that lost theirs (purge, a late helper) are never filled in again"))
-        elif not calc:
-            ok_paths = False
-            res.fail(rule, finding(prop, rule, hp, fn, "Hexital.append must append to every candle manager unconditionally and then calculate", construct="Hexital.append: " + " -> ".join(names)))
-    if ok_paths and n_paths:
-        res.ok(rule, {"site": hp.where, "order": "every manager.append(candles) -> self.calculate()"}, nontrivial="Hexital.append")
+        except cs.Raised as ex:
+            res.fail(rule, finding(prop, rule, hp, hp.node, f"Hexital.append raises {ex.what} when given {label}", construct=f"Hexital.append: {label}"))
+            continue
+        appends = [e for e in events if e[0] == "append"]
+        others = [e for e in events if e[0] not in ("append", "calculate")]
+        calcs = [e for e in events if e[0] == "calculate"]
+        last_append = max((i for i, e in enumerate(events) if e[0] == "append"), default=-1)
+        first_calc = min((i for i, e in enumerate(events) if e[0] != "append"), default=len(events))
+        bad = None
+        if sorted(e[1] for e in appends) != sorted(mgrs):
+            bad = f"given {label}, the managers appended to are {[e[1] for e in appends]} (registered: {sorted(mgrs)}): a manager that is skipped (or fed twice) no longer sees the stream a standalone indicator sees"
+        elif any(len(e[2]) != len(elems) or any(x is not y for x, y in zip(e[2], elems)) for e in appends):
+            e = next(e for e in appends if len(e[2]) != len(elems) or any(x is not y for x, y in zip(e[2], elems)))
+            bad = f"given {label}, manager {e[1]} is handed {e[2]!r} instead of all of the given candles, in order"
+        elif others:
+            bad = f"after the append an indicator is driven with {others[0][0]}() instead of calculate(): only calculate() resumes from the first candle without a reading, so candles that lost theirs (purge, a late helper) are never filled in again"
+        elif sorted(e[1] for e in calcs) != sorted(inds):
+            bad = f"given {label}, calculate() runs on {[e[1] for e in calcs]} (registered: {sorted(inds)})"
+        elif last_append > first_calc:
+            bad = f"given {label}, an indicator is calculated before every manager has the new candles ({[e[:2] for e in events]})"
+        if bad:
+            res.fail(rule, finding(prop, rule, hp, hp.node, bad, construct=f"Hexital.append: {label}"))
+        else:
+            n_ok += 1
+    if n_ok:
+        res.ok(rule, {"site": hp.where, "order": f"{n_ok} input forms: every manager.append(all given candles) once -> every indicator.calculate() once"}, nontrivial="Hexital.append")
+        res.ok(rule, {"site": hp.where, "feeds": "the given candles, complete"}, nontrivial="Hexital.append:feed")
 
 
 def _append_manager(prop, res, repo):
@@ -507,6 +488,8 @@ def check_span(prop: str, res: Result, repo: Repo):
                     res.ok(rule, {"site": f"{fi.where} {norm_construct(c)}", "span": "resume (calculate())"})
                 elif bounds is not None and (_span_one(bounds[0], bounds[1]) or (fi.name == "calculate_index" and (all(isinstance(a, ast.Name) and a.id in params for a in bounds) or _own_range(fi, bounds)))):
                     res.ok(rule, {"site": f"{fi.where} {norm_construct(c)}", "span": "1 or caller's own range"}, nontrivial=f"{fi.qualname}:sub")
+                elif fi.qualname == "Managed.set_reading" and _managed_span_one(repo):
+                    res.ok(rule, {"site": f"{fi.where} {norm_construct(c)}", "span": "1 (Managed.set_reading evaluated on model inputs: helpers are recomputed over [target, target + 1) only)"}, nontrivial=f"{fi.qualname}:sub")
                 else:
                     res.fail(rule, finding(prop, rule, fi, c, "sub-indicators are recomputed over a range that is not a single index"))
             elif nm in ("recalculate", "purge") and fi.name in ("calculate", "calculate_index", "_calculate_sub_indicators", "set_reading", "_calculate_reading", "_set_reading", "append") and fi.cls is not None and fi.cls.name != "Hexital":
@@ -518,6 +501,12 @@ def check_span(prop: str, res: Result, repo: Repo):
         res.ok(rule, {"site": sub.where, "why": "sub-indicators resume (calculate) or recompute the caller's range"})
     else:
         res.fail(rule, finding(prop, rule, sub, sub.node, "_calculate_sub_indicators must drive helpers with calculate() / calculate_index(range)", construct="_calculate_sub_indicators: " + ",".join(sorted(names))))
+
+
+def _managed_span_one(repo) -> bool:
+    from .helpersem import verdict
+
+    return verdict(repo, "Managed.set_reading")[0] == "ok"
 
 
 def _local_defs(fi, bounds):
